@@ -33,6 +33,7 @@ def bounds(tier):
 
 # ------------------------------------------------------------------------------ files
 def file_bytes(name):
+    import numpy as np
     import tskit
 
     from . import c09
@@ -59,6 +60,29 @@ def file_bytes(name):
     elif name == "full_noref":
         tc = c09._full_tables()
         tc.reference_sequence.clear()
+        tc.build_index()
+        tc.dump(path)
+    elif name == "sparse":
+        # rows everywhere but EMPTY ragged columns (offset arrays all zero), and a second migration so that
+        # every table has at least two rows: the shape in which an offsets check keyed on the total
+        # length has nothing to look at (seed c10d)
+        tc = c09._full_tables()
+        for t in ("nodes", "edges", "sites", "mutations", "individuals", "populations", "migrations"):
+            getattr(tc, t).drop_metadata()
+        n = tc.sites.num_rows
+        tc.sites.set_columns(position=tc.sites.position, ancestral_state=np.zeros(0, dtype=np.int8),
+                             ancestral_state_offset=np.zeros(n + 1, dtype=np.uint64))
+        m = tc.mutations
+        m.set_columns(site=m.site, node=m.node, parent=m.parent, time=m.time,
+                      derived_state=np.zeros(0, dtype=np.int8),
+                      derived_state_offset=np.zeros(m.num_rows + 1, dtype=np.uint64))
+        iv = tc.individuals
+        iv.set_columns(flags=iv.flags)
+        tc.migrations.add_row(0, 3, 1, 0, 1, 0.5)
+        tc.provenances.clear()
+        tc.provenances.add_row(record="", timestamp="")
+        tc.provenances.add_row(record="", timestamp="")
+        tc.sort()
         tc.build_index()
         tc.dump(path)
     elif name == "ts":
@@ -354,6 +378,10 @@ def shards(tier, seed):
                                   full=(tier == "thorough" and li == 1 and fn == "full"), _resumable=True))
                 if tier == "thorough" or fn == "full":
                     specs.append(dict(kind="data", file=fn, loader=li, k=k, n=nsh, _resumable=True))
+    # data faults on the file whose ragged columns are all empty (quick: table loader and tskit.load)
+    for li in ((0, 1) if tier == "quick" else (0, 1, 3, 5)):
+        for k in range(8):
+            specs.append(dict(kind="data", file="sparse", loader=li, k=k, n=8, _resumable=True))
     # pairs of consistent-looking multi-byte field changes (multi-field departures)
     nfp = 16 if tier == "quick" else 64
     for k in range(nfp):
